@@ -30,7 +30,7 @@ type CaseSpec struct {
 	PredHit    bool `json:"pred_hit"`   // predicate text chosen to match (true) or to miss (false) the scripted error text
 	MOut       int  `json:"m_out"`      // marshal: 0 right data, 1 wrong data, 2 nil data, 3 the right data with a line feed added at (or, with NLData, removed from) its end
 	MErr       int  `json:"m_err"`      // marshal: 0 no error, 1 error, 2 panic, 3 an error value that is a nil pointer of an error type, 4 error with a two-line text
-	UStore     int  `json:"u_store"`    // unmarshal: 0 stores the expected value, 1 stores a different value, 2 stores nothing
+	UStore     int  `json:"u_store"`    // unmarshal: 0 stores the expected value, 1 stores a different value, 2 stores nothing, 3 stores the empty value (for a slice type: an empty, non-nil slice)
 	UErr       int  `json:"u_err"`      // unmarshal: 0 no error, 1 error, 2 panic (after storing), 3 nil-pointer error value, 4 error with a two-line text
 	NilValue   bool `json:"nil_value"`  // pointer type only: the case's Value is a nil pointer
 	EmptyData  bool `json:"empty_data"` // OnlyMarshal cases only: the expected Data is empty (the marshaler returns nil or an empty slice)
@@ -233,6 +233,49 @@ func (s *Mixed) UnmarshalText(b []byte) error {
 	return doUnmarshal(b, func(t int, p string) { s.Tag, s.Payload = t, p })
 }
 
+// SL is a slice-kind type: [tag, payload]; the empty value it may be left with is an empty, non-nil slice.
+type SL []string
+
+func (s SL) tag() int {
+	if len(s) == 0 {
+		return 0
+	}
+	t, _ := strconv.Atoi(s[0])
+	return t
+}
+func (s *SL) set(t int, p string) {
+	if t == 0 && p == "" {
+		*s = SL{}
+		return
+	}
+	*s = SL{strconv.Itoa(t), p}
+}
+func (s SL) MarshalText() ([]byte, error)    { return doMarshal(s.tag()) }
+func (s SL) MarshalBinary() ([]byte, error)  { return doMarshal(s.tag()) }
+func (s SL) MarshalJSON() ([]byte, error)    { return doMarshal(s.tag()) }
+func (s *SL) UnmarshalText(b []byte) error   { return doUnmarshal(b, s.set) }
+func (s *SL) UnmarshalBinary(b []byte) error { return doUnmarshal(b, s.set) }
+func (s *SL) UnmarshalJSON(b []byte) error   { return doUnmarshal(b, s.set) }
+
+// SP2 is a second pointer type with the same behaviour as SP: lists of the interface type Both hold both kinds.
+type SP2 struct {
+	Tag     int
+	Payload string
+}
+
+func (s *SP2) MarshalText() ([]byte, error)   { return doMarshal(s.Tag) }
+func (s *SP2) MarshalBinary() ([]byte, error) { return doMarshal(s.Tag) }
+func (s *SP2) MarshalJSON() ([]byte, error)   { return doMarshal(s.Tag) }
+func (s *SP2) UnmarshalText(b []byte) error {
+	return doUnmarshal(b, func(t int, p string) { s.Tag, s.Payload = t, p })
+}
+func (s *SP2) UnmarshalBinary(b []byte) error {
+	return doUnmarshal(b, func(t int, p string) { s.Tag, s.Payload = t, p })
+}
+func (s *SP2) UnmarshalJSON(b []byte) error {
+	return doUnmarshal(b, func(t int, p string) { s.Tag, s.Payload = t, p })
+}
+
 // Both is an interface type used as T: the case values are *SP pointers held in the interface.
 type Both interface {
 	MarshalText() ([]byte, error)
@@ -283,6 +326,11 @@ func (customHelper[T]) AssertEmpty(t test.TestingT, value T, failInfo string) {
 			return
 		}
 		v = v.Elem()
+	}
+	if k := v.Kind(); k == reflect.Slice || k == reflect.Map {
+		if v.Len() == 0 {
+			return
+		}
 	}
 	if !v.IsZero() {
 		t.Errorf("custom helper: value %+v is not empty: %s", value, failInfo)
@@ -508,8 +556,8 @@ func modelCase(cs CaseSpec, idx int, mainMarshal, dirMarshal bool, tag int) case
 			m.unsatisfied = !met || !dataNil
 		}
 	} else {
-		stored := cs.UStore // 0 expected, 1 different, 2 nothing
-		if cs.Before == 4 {
+		stored := cs.UStore // 0 expected, 1 different, 2 nothing, 3 the empty value (empty like nothing)
+		if cs.Before == 4 || stored == 3 {
 			stored = 2
 		}
 		if cs.Pred == 0 {
@@ -584,6 +632,9 @@ func runList[T any](spec ListSpec, mkValue func(tag int, payload string, isNil b
 		case 1:
 			us.store = true
 			us.payload = "different"
+		case 3:
+			us.store = true
+			us.tag, us.payload = 0, ""
 		}
 		switch cs.UErr {
 		case 3:
@@ -737,7 +788,14 @@ func run(spec ListSpec, indices []int, second bool) (*recorder, *recorder, int, 
 	case "PRecv":
 		return runList(spec, func(tag int, p string, _ bool) PRecv { return PRecv{tag, p} }, indices, second)
 	case "Both":
-		return runList(spec, func(tag int, p string, _ bool) Both { return &SP{tag, p} }, indices, second)
+		return runList(spec, func(tag int, p string, _ bool) Both {
+			if tag%2 == 1 { // two dynamic types in one list
+				return &SP2{tag, p}
+			}
+			return &SP{tag, p}
+		}, indices, second)
+	case "SL":
+		return runList(spec, func(tag int, p string, _ bool) SL { return SL{strconv.Itoa(tag), p} }, indices, second)
 	case "TextOnly":
 		return runList(spec, func(tag int, p string, _ bool) TextOnly { return TextOnly{tag, p} }, indices, second)
 	case "JSONOnly":
@@ -765,7 +823,7 @@ func hasIface(typ, helper string, marshal bool) bool {
 		return (marshal && format == "JSON") || (!marshal && format == "Text")
 	}
 	switch typ {
-	case "SV", "SP", "Both":
+	case "SV", "SP", "Both", "SL":
 		return true
 	case "MOnly":
 		return marshal
@@ -945,7 +1003,7 @@ func truncateAll(ss []string) []string {
 // ---- generation ----------------------------------------------------------------------------------------------------------------
 
 var helpers = []string{"MarshalText", "UnmarshalText", "MarshalBinary", "UnmarshalBinary", "MarshalJSON", "UnmarshalJSON"}
-var typesAll = []string{"SV", "SP", "SV", "SP", "NoIface", "MOnly", "UOnly", "PRecv", "Both", "TextOnly", "JSONOnly", "BinOnly", "Mixed"}
+var typesAll = []string{"SL", "Both", "SV", "SP", "SV", "SP", "NoIface", "MOnly", "UOnly", "PRecv", "Both", "TextOnly", "JSONOnly", "BinOnly", "Mixed"}
 
 func genCase(rt *rapid.T) CaseSpec {
 	hookG := rapid.SampledFrom([]int{0, 0, 0, 0, 1, 1, 2, 3, 4, 5, 6})
@@ -957,7 +1015,7 @@ func genCase(rt *rapid.T) CaseSpec {
 		PredHit:    rapid.Bool().Draw(rt, "predHit"),
 		MOut:       rapid.SampledFrom([]int{0, 0, 1, 2, 3}).Draw(rt, "mOut"),
 		MErr:       rapid.SampledFrom([]int{0, 0, 1, 2, 3, 4}).Draw(rt, "mErr"),
-		UStore:     rapid.SampledFrom([]int{0, 0, 1, 2}).Draw(rt, "uStore"),
+		UStore:     rapid.SampledFrom([]int{0, 0, 1, 2, 3}).Draw(rt, "uStore"),
 		UErr:       rapid.SampledFrom([]int{0, 0, 1, 2, 3, 4}).Draw(rt, "uErr"),
 		NilValue:   rapid.IntRange(0, 9).Draw(rt, "nilValue") == 0,
 		EmptyData:  rapid.IntRange(0, 7).Draw(rt, "emptyData") == 0,
@@ -1047,6 +1105,13 @@ func TestCheck(t *testing.T) {
 				}
 			}
 		}
+		for con := 0; con < 3; con++ { // the unmarshaler leaves the empty value behind (for a slice type: empty but not nil)
+			for pred := 0; pred <= 7; pred++ {
+				for _, er := range []int{0, 1, 2} {
+					specs = append(specs, CaseSpec{Constraint: con, Pred: pred, PredHit: true, MOut: 2, MErr: er, UStore: 3, UErr: er})
+				}
+			}
+		}
 		for con := 0; con < 3; con++ { // the caller's own predicates against every outcome; data that differs in a final line feed only
 			for _, pred := range []int{8, 9, 10} {
 				for out := 0; out < 4; out++ {
@@ -1089,12 +1154,12 @@ func TestCheck(t *testing.T) {
 				}
 			}
 		}
-		types := []string{"SV", "SP", "NoIface", "MOnly", "UOnly", "PRecv", "Both", "TextOnly", "JSONOnly", "BinOnly", "Mixed"}
+		types := []string{"SV", "SP", "SL", "Both", "NoIface", "MOnly", "UOnly", "PRecv", "Both", "TextOnly", "JSONOnly", "BinOnly", "Mixed"}
 		r.Parallel(int64(len(specs)), 16, func(w *vkit.W, lo, hi int64) {
 			for i := lo; i < hi; i++ {
 				for _, h := range helpers {
 					for ti, typ := range types {
-						if ti >= 2 && i%7 != 0 {
+						if ti >= 4 && i%7 != 0 {
 							continue
 						}
 						for _, front := range []bool{false, true} {
@@ -1137,6 +1202,7 @@ func TestCheck(t *testing.T) {
 			{MErr: 3, UErr: 3}, {MErr: 3, UErr: 3, MOut: 2, UStore: 2, Pred: 2, PredHit: true},
 			{Pred: 7, MErr: 1, MOut: 2, UErr: 1, UStore: 2}, {Pred: 7, MErr: 4, MOut: 2, UErr: 4, UStore: 2}, {Pred: 7, MErr: 2, MOut: 2, UErr: 2, UStore: 2}, {Pred: 3, PredHit: true, MErr: 4, MOut: 2, UErr: 4, UStore: 2},
 			{Pred: 8, MOut: 2, UStore: 2}, {Pred: 8, MErr: 1, MOut: 2, UErr: 1, UStore: 2}, {Pred: 9, MOut: 2, UStore: 2}, {Pred: 10, MErr: 1, MOut: 2, UErr: 1, UStore: 2}, {MOut: 3}, {NLData: true}, {NLData: true, MOut: 3},
+			{Pred: 1, PredHit: true, MErr: 1, MOut: 2, UErr: 1, UStore: 3}, {UStore: 3},
 			{Before: 5}, {Before: 6, After: 2}, {Before: 6, After: 3, MErr: 2, UErr: 2, Pred: 3, PredHit: true, UStore: 2}, // hooks that rewrite the case they are handed; nil result for empty data
 		}
 		np := int64(len(pal))
@@ -1145,7 +1211,7 @@ func TestCheck(t *testing.T) {
 			for k := lo; k < hi; k++ {
 				a, b := pal[k/np], pal[k%np]
 				for hi2, h := range helpers {
-					typ := []string{"SV", "SP", "PRecv", "Both"}[(int(k)+hi2)%4]
+					typ := []string{"SV", "SP", "PRecv", "Both", "SL"}[(int(k)+hi2)%5]
 					w.Eval(judge(ListSpec{Helper: h, Type: typ, Cases: []CaseSpec{a, b}, CustomHelper: k%3 == 0}, w))
 				}
 			}
